@@ -1269,8 +1269,16 @@ fn check_spec_reserved_keys(key: &[u8], mut value: &[u8]) -> Result<(), Error> {
             #[cfg(not(any(feature = "k256", feature = "rust-secp256k1")))]
             let _ = pubkey_bytes;
         }
-        _ => return Ok(()),
+        _ => {
+            // any other value must still be a well-formed RLP item
+            let header = Header::decode(&mut value)?;
+            value.advance(header.payload_length);
+        }
     };
+    // a value is exactly one RLP item
+    if !value.is_empty() {
+        return Err(Error::InvalidRlpData(DecoderError::UnexpectedLength));
+    }
     Ok(())
 }
 
